@@ -287,7 +287,7 @@ impl<T> RenderHtml for Suspend<T>
 where
     T: RenderHtml + Sized + 'static,
 {
-    type AsyncOutput = Option<T>;
+    type AsyncOutput = Option<T::AsyncOutput>;
     type Owned = Self;
 
     const MIN_LENGTH: usize = T::MIN_LENGTH;
@@ -450,7 +450,10 @@ where
     }
 
     async fn resolve(self) -> Self::AsyncOutput {
-        Some(self.inner.await)
+        // also wait for whatever is asynchronous in the output: a `Suspend`
+        // inside it that is still pending when a `Suspense` renders the resolved
+        // children would otherwise emit nothing at all
+        Some(self.inner.await.resolve().await)
     }
 
     fn dry_resolve(&mut self) {
